@@ -9,15 +9,6 @@ Ltac Zify.zify_post_hook ::= Z.div_mod_to_equations.
 Open Scope N_scope.
 
 (* which payload lengths a style can announce *)
-Definition len_fits (ls : lenstyle) (n : N) : bool :=
-  match ls with
-  | LEmpty => true
-  | LFixed k => n =? k                 (* exactly k: shorter payloads are left-padded and read back padded *)
-  | LTlv => n <=? 65535
-  | LLlv d => n <? 10 ^ d
-  | LAdpu => n <=? 65535
-  | LTemperature => (3 <=? n) && (n <=? 4)
-  end.
 
 Definition tag_ok (big : bool) (tag : option N) : Prop :=
   match tag with
